@@ -158,9 +158,22 @@ package server
 //@   ensures ret0 == nil ==> nsPresent(n, config.Name)
 //@ func (*NamespaceManager).DeleteNamespace
 //@   assigns mapof(n.namespaces)
-//@ func CloneUserManager
+//@ func NewUserManager
 //@   assigns \nothing
-//@   ensures ret0 != nil && fresh(ret0)
+//@   ensures ret0 != nil && fresh(ret0) && ret0.users != nil && fresh(ret0.users) && ret0.userNamespaces != nil && fresh(ret0.userNamespaces) && forall(k string, !has(ret0.users, k) && !has(ret0.userNamespaces, k))
+// a clone registers exactly the same credentials (same keys, same namespaces, same passwords per user) in fresh tables and lists
+//@ func CloneUserManager
+//@   requires user != nil
+//@   assume forall(k string, has(user.users, k) ==> allocated(user.users[k]))
+//@   assigns \nothing
+//@   loop 0 invariant ret != nil && fresh(ret) && ret.users != nil && fresh(ret.users) && ret.userNamespaces != nil && fresh(ret.userNamespaces) && forall(k string, !has(ret.users, k))
+//@   loop 0 invariant forall(k string, has(ret.userNamespaces, k) <==> (has(user.userNamespaces, k) && visited(k))) && forall(k string, has(ret.userNamespaces, k) ==> ret.userNamespaces[k] == user.userNamespaces[k])
+//@   loop 1 invariant ret != nil && fresh(ret) && ret.users != nil && fresh(ret.users) && ret.userNamespaces != nil && fresh(ret.userNamespaces)
+//@   loop 1 invariant forall(k string, has(ret.userNamespaces, k) <==> has(user.userNamespaces, k)) && forall(k string, has(ret.userNamespaces, k) ==> ret.userNamespaces[k] == user.userNamespaces[k])
+//@   loop 1 invariant forall(k string, has(ret.users, k) <==> (has(user.users, k) && visited(k))) && forall(k string, has(ret.users, k) ==> fresh(ret.users[k]) && allocated(ret.users[k]) && len(ret.users[k]) == len(user.users[k]) && forall(j, 0, len(user.users[k]), ret.users[k][j] == user.users[k][j]))
+//@   ensures ret0 != nil && fresh(ret0) && ret0.users != nil && ret0.userNamespaces != nil
+//@   ensures case keys:  forall(k string, has(ret0.userNamespaces, k) <==> has(user.userNamespaces, k)) && forall(k string, has(ret0.userNamespaces, k) ==> ret0.userNamespaces[k] == user.userNamespaces[k])
+//@   ensures case users: forall(k string, has(ret0.users, k) <==> has(user.users, k)) && forall(k string, has(ret0.users, k) ==> len(ret0.users[k]) == len(user.users[k]) && forall(j, 0, len(user.users[k]), ret0.users[k][j] == user.users[k][j]))
 //@ func (*UserManager).RebuildNamespaceUsers
 //@   assigns mapof(u.users), mapof(u.userNamespaces)
 //@ func NewSQLResponse
@@ -203,6 +216,7 @@ package server
 // delete stages a copy without the namespace, activates it, and invalidates any pending prepare
 //@ func (*Manager).DeleteNamespace
 //@   requires mgrWF(m)
+//@   may-panic when true
 //@   ensures case absent:  !old(nsPresent(m.namespaces[genIdx(m)], name)) ==> ret0 == nil && genIdx(m) == old(genIdx(m)) && m.namespaces[0] == old(m.namespaces[0]) && m.namespaces[1] == old(m.namespaces[1])
 //@   ensures case switch:  old(nsPresent(m.namespaces[genIdx(m)], name)) ==> ret0 == nil && genIdx(m) == 1 - old(genIdx(m)) && fresh(m.namespaces[genIdx(m)]) && fresh(m.users[genIdx(m)])
 //@   ensures case invalidates: old(nsPresent(m.namespaces[genIdx(m)], name)) ==> !prepared(m)
@@ -454,7 +468,7 @@ package server
 //@   pure-call
 //@   ensures fresh(ret0) && len(ret0) >= 1 && (sep == ":" ==> ret0[0] == userOf(s) && (len(ret0) >= 2 ==> ret0[1] == passOf(s)))
 //@ axiom splitKey: forall(u string, forall(p string, noColon(u) ==> userOf(keyOf(u, p)) == u && (noColon(p) ==> passOf(keyOf(u, p)) == p)))
-//@ property C29: getUserKey, getUserAndPasswordFromKey, (*UserManager).CheckUser, (*UserManager).GetNamespaceByUser, (*UserManager).addNamespaceUsers, (*UserManager).ClearNamespaceUsers
+//@ property C29: NewUserManager, CloneUserManager, getUserKey, getUserAndPasswordFromKey, (*UserManager).CheckUser, (*UserManager).GetNamespaceByUser, (*UserManager).addNamespaceUsers, (*UserManager).ClearNamespaceUsers
 //@ func getUserKey
 //@   assigns \nothing
 //@   ensures ret0 == keyOf(username, password)
@@ -492,7 +506,8 @@ package server
 // (userOf / passOf of the key) -- every other key, user and password is untouched
 //@ pure cleared(u *UserManager, ns string, name string, p string) bool = exists(key string, has(u.userNamespaces, key) && u.userNamespaces[key] == ns && userOf(key) == name && passOf(key) == p)
 //@ func (*UserManager).ClearNamespaceUsers
-//@   requires u != nil && u.users != nil && u.userNamespaces != nil && forall(name string, has(u.users, name) ==> allocated(u.users[name]))
+//@   requires u != nil && u.users != nil && u.userNamespaces != nil
+//@   assume forall(name string, has(u.users, name) ==> allocated(u.users[name]))
 //@   assigns mapof(u.users), mapof(u.userNamespaces)
 //@   may-panic when true
 //@   loop 0 invariant case keys: forall(key string, (has(u.userNamespaces, key) <==> old(has(u.userNamespaces, key)) && !(visited(key) && old(u.userNamespaces[key]) == namespace)) && (has(u.userNamespaces, key) ==> u.userNamespaces[key] == old(u.userNamespaces[key])))
